@@ -87,13 +87,13 @@ macro "loop_neg_tac" : tactic => `(tactic| (
 /-- the loop invariant holds in one of the two argument orders -/
 theorem while1_nat : LoopA getBytesCntOfInt_while1 ∨ LoopB getBytesCntOfInt_while1 := by
   first
-  | exact Or.inl (by unfold LoopA; loop_nat_tac)
-  | exact Or.inr (by unfold LoopB; loop_nat_tac)
+  | (left; unfold LoopA; loop_nat_tac; done)
+  | (right; unfold LoopB; loop_nat_tac; done)
 
 theorem while1_neg : NegA getBytesCntOfInt_while1 ∨ NegB getBytesCntOfInt_while1 := by
   first
-  | exact Or.inl (by unfold NegA; loop_neg_tac)
-  | exact Or.inr (by unfold NegB; loop_neg_tac)
+  | (left; unfold NegA; loop_neg_tac; done)
+  | (right; unfold NegB; loop_neg_tac; done)
 
 /-- lift a natural result -/
 def liftNat : PyRes Nat → PyRes Int
@@ -163,13 +163,18 @@ theorem getBytesCnt_gen_eq (fuel v : Nat) (a2n : Bool) (bc : Nat) (bcO : Option 
     · simp [hbc, hb, liftNat]
   · have hz : ((v : Int) == 0) = false := by simp [h0]
     have hpos := byteLen_pos v h0
+    -- NB: no nested `by` terms inside `first` (their errors would be recovered instead of selecting the alternative)
     first
-    | (have hloop : ∀ cnt : Int, getBytesCntOfInt_while1 fuel (v : Int) cnt = .ok (0, cnt + (byteLen v : Nat)) :=
-         fun cnt => (show LoopA getBytesCntOfInt_while1 by unfold LoopA; loop_nat_tac) v v cnt fuel (Nat.le_refl v) hf
-       gen_eq_finish)
-    | (have hloop : ∀ cnt : Int, getBytesCntOfInt_while1 fuel cnt (v : Int) = .ok (cnt + (byteLen v : Nat), 0) :=
-         fun cnt => (show LoopB getBytesCntOfInt_while1 by unfold LoopB; loop_nat_tac) v v cnt fuel (Nat.le_refl v) hf
-       gen_eq_finish)
+    | (refine (fun (hA : LoopA getBytesCntOfInt_while1) => ?_) ?_
+       · have hloop : ∀ cnt : Int, getBytesCntOfInt_while1 fuel (v : Int) cnt = .ok (0, cnt + (byteLen v : Nat)) :=
+           fun cnt => hA v v cnt fuel (Nat.le_refl v) hf
+         gen_eq_finish
+       · unfold LoopA; loop_nat_tac)
+    | (refine (fun (hB : LoopB getBytesCntOfInt_while1) => ?_) ?_
+       · have hloop : ∀ cnt : Int, getBytesCntOfInt_while1 fuel cnt (v : Int) = .ok (cnt + (byteLen v : Nat), 0) :=
+           fun cnt => hB v v cnt fuel (Nat.le_refl v) hf
+         gen_eq_finish
+       · unfold LoopB; loop_nat_tac)
 
 theorem getBytesCnt_ne_other (v : Nat) (a2n : Bool) (bc : Nat) : liftNat (getBytesCnt v a2n bc) ≠ .error .other := by
   unfold getBytesCnt
@@ -180,14 +185,16 @@ theorem getBytesCnt_gen_neg (fuel : Nat) (v : Int) (hv : v < 0) (a2n : Bool) (bc
     getBytesCntOfInt fuel v a2n bcO = .error .other := by
   have hz : (v == 0) = false := by simp; omega
   first
-  | (have hloop : ∀ cnt : Int, getBytesCntOfInt_while1 fuel v cnt = .error .other :=
-       fun cnt => (show NegA getBytesCntOfInt_while1 by unfold NegA; loop_neg_tac) fuel v cnt hv
-     simp only [getBytesCntOfInt, hz, hloop]
-     simp)
-  | (have hloop : ∀ cnt : Int, getBytesCntOfInt_while1 fuel cnt v = .error .other :=
-       fun cnt => (show NegB getBytesCntOfInt_while1 by unfold NegB; loop_neg_tac) fuel v cnt hv
-     simp only [getBytesCntOfInt, hz, hloop]
-     simp)
+  | (refine (fun (hA : NegA getBytesCntOfInt_while1) => ?_) ?_
+     · have hloop : ∀ cnt : Int, getBytesCntOfInt_while1 fuel v cnt = .error .other := fun cnt => hA fuel v cnt hv
+       simp only [getBytesCntOfInt, hz, hloop]
+       simp
+     · unfold NegA; loop_neg_tac)
+  | (refine (fun (hB : NegB getBytesCntOfInt_while1) => ?_) ?_
+     · have hloop : ∀ cnt : Int, getBytesCntOfInt_while1 fuel cnt v = .error .other := fun cnt => hB fuel v cnt hv
+       simp only [getBytesCntOfInt, hz, hloop]
+       simp
+     · unfold NegB; loop_neg_tac)
 
 theorem and15 (x : Nat) : x &&& 15 = x % 16 := Nat.and_two_pow_sub_one_eq_mod x 4
 
